@@ -397,7 +397,11 @@ Section Inline.
                    else match rec (td_conditions td) with
                         | None => None
                         | Some tcs =>
-                            let tcs' := if acc_um a then tcs else invert tcs in
+                            (* a negated reference inverts the definition; a definition that can never
+                               match is stored as the empty set, whose negation is the conjunct without
+                               conditions (invert() of the empty set is the empty set again; d05297f) *)
+                            let tcs' := if acc_um a then tcs
+                                        else match tcs with [] => [[]] | _ => invert tcs end in
                             inline_conj_with rest (inline_step t a tcs' cs_new)
                         end
                end
